@@ -286,18 +286,44 @@ func (csm *conditionalStorageMiddleware) CopyObject(ctx context.Context, srcBuck
 	}
 	defer closeReaders(readers)
 
+	putOpts := &storage.PutObjectOptions{}
+	if opts != nil {
+		// The destination class comes from the copy request only; the
+		// source's class is never carried over.
+		putOpts.StorageClass = opts.StorageClass
+	}
+
+	// Content type and metadata follow the metadata directive.
 	if opts != nil && opts.ReplaceMetadata {
 		contentType = opts.ContentType
+		putOpts.Metadata = opts.Metadata
 	} else {
 		contentType = srcObject.ContentType
+		metadata := srcObject.Metadata
+		// The redirect location is never carried over from the source; it
+		// applies only when supplied on the copy request itself.
+		metadata.WebsiteRedirectLocation = nil
+		if opts != nil && opts.Metadata != nil {
+			metadata.WebsiteRedirectLocation = opts.Metadata.WebsiteRedirectLocation
+		}
+		putOpts.Metadata = &metadata
 	}
+
+	// Tags follow the tagging directive: REPLACE uses the supplied tag set,
+	// COPY (the default) carries over the source object's tags.
+	if opts != nil && opts.ReplaceTags {
+		putOpts.Tags = opts.Tags
+	} else {
+		putOpts.Tags = srcObject.Tags
+	}
+
 	body, err := cachedCopyBody(readers)
 	if err != nil {
 		return nil, err
 	}
 	defer body.Close()
 
-	putResult, err := dstStorage.PutObject(ctx, dstBucket, dstKey, contentType, body, nil, nil)
+	putResult, err := dstStorage.PutObject(ctx, dstBucket, dstKey, contentType, body, nil, putOpts)
 	if err != nil {
 		return nil, err
 	}
